@@ -279,7 +279,11 @@ def judge(real, sysm):
         if real["fcfg"] != "absent" and sysm.ck_cfgsaved:
             names = SAMPLER_OF.get(real["fcfg"], "none")
             if names != ck["sampler"]:
-                out.append(("ConfigNamesWriter", "fit_config_type" if (sysm.cfg_by == "fit" or sysm.tainted) else None))
+                # the recorded finding is: fit() rewrites the configuration with the instance's *last sampler
+                # type* (another sampler than the checkpoint's writer).  A configuration that names no
+                # sampler at all next to a checkpoint is a different failure and is not covered by it.
+                known = (sysm.cfg_by == "fit" or sysm.tainted) and names != "none"
+                out.append(("ConfigNamesWriter", "fit_config_type" if known else None))
     return out
 
 
